@@ -274,6 +274,8 @@ def _main():
                                  "arbitrary_inputs": st.get("arbitrary_inputs", 0) + st.get("fixed_size_inputs", 0),
                                  "values_reaching_post_decode_ops": st.get("post_decode_signed_values", 0) + st.get("post_decode_unsigned_values", 0),
                                  "distinct_panic_keys": sum(1 for f in o["findings"] if f["class"] == "panic")}
+    R.coverage["ssz_first_bytes"] = {"note": "leading bytes (hex) that a value's own SSZ encoding can / cannot have, per Go type; values with every reachable one are round-tripped and dispatched (the unmarshal rule looks at the first non-space byte)",
+                                     "per_type": o.get("first_bytes") or {}}
     if o.get("deviations"):
         R.coverage["documented_deviations"] = o["deviations"]
         R.notes.append("wire-format ambiguity observed on the real code (not counted as a violation, slots >= 2^32 are outside the modelled domain): " + "; ".join(d["what"] for d in o["deviations"][:2]))
